@@ -53,8 +53,8 @@ CASE_TIMEOUT_S = 300
 
 def plan(tier):
     if tier == "quick":
-        return collections.OrderedDict(specs=6, history=8, clone=6, unfitted=2, rejection=5, aliasing=8)
-    return collections.OrderedDict(specs=160, history=240, clone=160, unfitted=20, rejection=120, aliasing=240)
+        return collections.OrderedDict(specs=6, history=8, clone=6, unfitted=2, rejection=5, aliasing=8, borrowed=16)
+    return collections.OrderedDict(specs=160, history=240, clone=160, unfitted=20, rejection=120, aliasing=240, borrowed=320)
 
 
 # ----------------------------------------------------------------------
@@ -445,6 +445,8 @@ def run_case(run, tap, stream, index, rng):
             run.mark_nontrivial("unfitted", index)
         elif stream == "rejection":
             _rejection(run, rng, vd)
+        elif stream == "borrowed":
+            _borrowed(run, tap, index, rng)
         elif stream == "aliasing":
             # estimators that store copies of what they were given (C20 anchors: force_coords_, data_) must not follow
             # later in-place changes of the caller's arrays: predict repeated with equal arguments returns identical results
@@ -477,6 +479,46 @@ def run_case(run, tap, stream, index, rng):
 
 
 # ----------------------------------------------------------------------
+class _NullRun:
+    """Swallows what a borrowed workload reports: only the C20 purity monitors judge those executions."""
+
+    def __init__(self, run):
+        self.tier, self.seed, self.case, self.prop_id = "quick", run.seed, run.case, run.prop_id
+        self.exhaustive, self.notes, self.counters, self.maxima = {}, [], collections.Counter(), {}
+        self.sets, self.nontrivial, self.samples, self.violations = collections.defaultdict(set), set(), [], []
+
+    def __getattr__(self, name):
+        return lambda *a, **k: None
+
+
+BORROW_FROM = ["C01", "C02", "C03", "C04", "C05", "C06", "C08", "C09", "C10", "C11", "C12", "C14", "C15", "C16", "C18"]
+
+
+def _borrowed(run, tap, index, rng):
+    """Drive one case of another property's workload; the purity monitors installed here observe every call it makes."""
+    import importlib
+
+    prop = BORROW_FROM[index % len(BORROW_FROM)]
+    try:
+        mod = importlib.import_module("vmon.props." + prop.lower())
+        streams = list(mod.plan("quick").items())
+    except Exception as exc:  # noqa: BLE001
+        run.count("borrowed_unavailable:" + prop)
+        return
+    stream, count = streams[int(rng.integers(0, len(streams)))]
+    case = int(rng.integers(0, max(count, 1)))
+    before = run.counters.get("eval:purity", 0)
+    keep = tap.keep_tree
+    try:
+        mod.run_case(_NullRun(run), tap, stream, case, core.case_rng(run.seed, prop, stream, case))
+    except Exception as exc:  # noqa: BLE001 - judged by that property's own check, not here
+        run.count("borrowed_raised:%s:%s" % (prop, type(exc).__name__))
+    finally:
+        tap.keep_tree = keep
+    run.count("borrowed:" + prop)
+    run.count("borrowed_purity_evaluations", run.counters.get("eval:purity", 0) - before)
+
+
 def _rejection(run, rng, vd):
     """Each single inconsistency must raise; the same call without it must succeed."""
     coords, data, weights = _dataset(rng, n=24, weights=True)
